@@ -33,6 +33,7 @@ int main()
 	{
 		std::string in = h == "-" ? std::string() : unhex(h);
 		if (kind == "N") { std::cerr << "N " << hex(sim::normalize(in)) << "\n"; }
+		else if (kind == "C") { std::cerr << "C " << (sim::lower_case(in).empty() ? std::string("-") : hex(sim::lower_case(in))) << "\n"; }
 		else if (kind == "L") { std::cerr << "L " << sim::find_request_len(in.data(), int(in.size())) << "\n"; }
 		else if (kind == "P")
 		{
@@ -127,9 +128,17 @@ def run(pid, tier, seed, workroot, results):
                 cases.append('P ' + hx(req))
                 expect.append(('P', req, e))
                 n_rt += 1
+    # lower_case: every single byte, and the alphabet in both cases (C locale: exactly A..Z are folded)
+    def ref_lower(t):
+        return ''.join(chr(ord(c) + 32) if 'A' <= c <= 'Z' else c for c in t)
+    lc_inputs = [chr(b) for b in range(1, 256) if chr(b) not in ' \t\r\n\x0b\x0c'] + ['ABCDEFGHIJKLMNOPQRSTUVWXYZ', 'abcdefghijklmnopqrstuvwxyz', 'X-Zone', 'AUTHORIZATION']
+    for t in lc_inputs:
+        cases.append('C ' + hx(t))
+        expect.append(('C', t, 'C ' + hx(ref_lower(t))))
+    n_lc = len(lc_inputs)
     p = subprocess.run(['./drv'], cwd=wd, input='\n'.join(cases).encode() + b'\n', stdout=subprocess.PIPE, stderr=subprocess.PIPE, timeout=1800)
     lines = p.stderr.decode().split('\n')
-    lines = [l for l in lines if l[:2] in ('N ', 'L ', 'P ')]
+    lines = [l for l in lines if l[:2] in ('N ', 'L ', 'P ', 'C ')]
     if p.returncode != 0 or len(lines) != len(cases):
         out["violations"].append({"spec": "http/parse_request", "obligation": {
             "id": "native.C15.total", "label": "C15.total", "kind": "native (bounded)",
@@ -148,11 +157,11 @@ def run(pid, tier, seed, workroot, results):
                 bad.append((kind, inp, e, g))
         elif g != e.strip():
             bad.append((kind, inp, e, g))
-    out["info"] = {"normalize_cases": n_norm, "find_request_len_cases": n_len, "roundtrip_cases": n_rt, "mismatches": len(bad)}
-    out["bounded"].append({"function": "normalize / find_request_len / parse_request (string content)", "clause": "C15.norm.content, C15.len, C15.roundtrip",
-                           "bound": "normalize: all %d strings over {/ . a} up to length %d; find_request_len: all %d strings over {CR LF a} up to length 8; parse_request: %d well-formed requests (3 methods x 5 targets x header lists up to 3 with case/whitespace/duplicate variants) compared field by field" % (n_norm, maxlen, n_len, n_rt),
+    out["info"] = {"normalize_cases": n_norm, "find_request_len_cases": n_len, "roundtrip_cases": n_rt, "lower_case_cases": n_lc, "mismatches": len(bad)}
+    out["bounded"].append({"function": "normalize / find_request_len / parse_request / lower_case (string content)", "clause": "C15.norm.content, C15.len, C15.roundtrip, C15.lower",
+                           "bound": "normalize: all %d strings over {/ . a} up to length %d; find_request_len: all %d strings over {CR LF a} up to length 8; parse_request: %d well-formed requests (3 methods x 5 targets x header lists up to 3 with case/whitespace/duplicate variants) compared field by field; lower_case: %d inputs (every non-blank single byte, both alphabets, two header names)" % (n_norm, maxlen, n_len, n_rt, n_lc),
                            "evaluations": len(cases), "result": "pass" if not bad else "FAIL"})
-    labmap = {'N': 'C15.norm.content', 'L': 'C15.len', 'P': 'C15.roundtrip'}
+    labmap = {'N': 'C15.norm.content', 'L': 'C15.len', 'P': 'C15.roundtrip', 'C': 'C15.lower'}
     seen = set()
     for kind, inp, e, g in bad:
         if kind in seen:
